@@ -263,13 +263,15 @@ class KindInterp(DictInterp):
                 raise Unsupported("recursion depth")
             fnode = self.functions[fn]
             ps = [a.arg for a in fnode.args.args]
-            if len(c.args) > len(ps) or fnode.args.vararg or fnode.args.kwarg:
+            if (len(c.args) > len(ps) and not fnode.args.vararg) or fnode.args.kwarg or any(isinstance(a, ast.Starred) for a in c.args):
                 raise Unsupported("call of %s" % fn)
-            env = dict(zip(ps, [self.ev(a) for a in c.args]))
+            env = dict(zip(ps, [self.ev(a) for a in c.args[:len(ps)]]))
+            if fnode.args.vararg:
+                env[fnode.args.vararg.arg] = tuple(self.ev(a) for a in c.args[len(ps):])      # *rest receives the remaining positionals
             for p_, d_ in zip(ps[::-1], list(fnode.args.defaults)[::-1]):
                 if p_ not in env:
                     env[p_] = self.ev(d_)
-            if len(env) != len(ps):
+            if len(env) != len(ps) + (1 if fnode.args.vararg else 0):
                 raise Unsupported("missing arguments of %s" % fn)
             sub = type(self)(env)
             sub.functions, sub.depth, sub.host, sub.records, sub.consts = self.functions, self.depth + 1, self.host, self.records, self.consts
